@@ -108,13 +108,15 @@ pub(super) async fn sync(
                 txn.set_base_version(new_version_id).await?;
                 local_ops.drain(..batch_len);
 
-                // make a snapshot if the server indicates it is urgent enough
+                // make a snapshot if the server indicates it is urgent enough. The storage holds
+                // the effects of all local operations, so it only represents the state at
+                // `new_version_id` once every one of them has been sent.
                 let base_urgency = if avoid_snapshots {
                     SnapshotUrgency::High
                 } else {
                     SnapshotUrgency::Low
                 };
-                if snapshot_urgency >= base_urgency {
+                if snapshot_urgency >= base_urgency && local_ops.is_empty() {
                     let snapshot = snapshot::make_snapshot(txn).await?;
                     server.add_snapshot(new_version_id, snapshot).await?;
                 }
